@@ -670,7 +670,7 @@ def _steps_info(c: CompilerNF, e):
     sref = d["steps"][0]
     if nf.list_leaves(c.I, sref) is None:
         return sref, None
-    segs = nf.list_content(c.I, sref, c.tree)
+    segs = nf.flatten_segs(c.I, nf.list_content(c.I, sref, c.tree), c.tree)
     return sref, _step_entries(c.I, segs)
 
 
@@ -946,6 +946,31 @@ def rule_ids(rep: Report, rid_order="C11.order", rid_src="C11.src") -> None:
 
     if c.out is not None:
         walk_term(c.out, frozenset(), frozenset())
+    # ids of its own for every pickle: a draw that reaches an emitted pickle happens inside every loop the emission is in
+    # (drawn once per pickle, not once for several of them)
+    all_used = used
+    ctx_of = {id(n): ctx for n, ctx in nf.iter_nodes(c.tree)}
+    draw_ctx = {n[1]: (ctx, n[2]) for n, ctx in draws}
+    for e in c.emits:
+        n = e["node"]
+        ectx = ctx_of.get(id(n))
+        if ectx is None or n[2] != "append" or len(n[3]) != 1:
+            continue
+        used = {}
+        walk_term(n[3][0], frozenset(), frozenset())
+        eloops = [x[1] for x in ectx if x[0] == "loop"]
+        line = c.line_of(n)
+        for serial in sorted(used):
+            if serial not in draw_ctx:
+                continue
+            dloops = {x[1] for x in draw_ctx[serial][0] if x[0] == "loop"}
+            missing = [l for l in eloops if l not in dloops]
+            rep.ob(rid_src, f"{e['level']}-level {e['kind']}: every id in a pickle is drawn for that pickle alone (inside every loop the pickle is emitted in)",
+                   not missing, expected="one draw per emitted pickle",
+                   found=("drawn per pickle" if not missing else
+                          f"drawn at line {draw_ctx[serial][1]} outside the loop over {fmt(I.loops[missing[-1]].get('iter'), I)}: the same id goes to several pickles"),
+                   file=CFILE, line=draw_ctx[serial][1], function=_fn_at(c, draw_ctx[serial][1]))
+    used = all_used
     for n, ctx in draws:
         serial, line = n[1], n[2]
         dg = set(nf.guards_in_ctx(ctx))
